@@ -13,6 +13,10 @@ import traceback
 HERE = os.path.dirname(os.path.dirname(os.path.abspath(__file__)))
 if HERE not in sys.path:
     sys.path.insert(0, HERE)
+if __name__ == "__main__" and os.environ.get("PYTHONHASHSEED") != "0":
+    # same queries on every run (see ./check)
+    os.environ["PYTHONHASHSEED"] = "0"
+    os.execv(sys.executable, [sys.executable, "-m", "pyvc.run"] + sys.argv[1:])
 
 
 def load_contracts():
